@@ -13,6 +13,7 @@ type packetManager struct {
 	requests    chan orderedPacket
 	responses   chan orderedPacket
 	fini        chan struct{}
+	done        chan struct{} // closed once the controller has flushed and exited
 	incoming    orderedPackets
 	outgoing    orderedPackets
 	sender      packetSender // connection object
@@ -31,6 +32,7 @@ func newPktMgr(sender packetSender) *packetManager {
 		requests:  make(chan orderedPacket, SftpServerWorkerCount),
 		responses: make(chan orderedPacket, SftpServerWorkerCount),
 		fini:      make(chan struct{}),
+		done:      make(chan struct{}),
 		incoming:  make([]orderedPacket, 0, SftpServerWorkerCount),
 		outgoing:  make([]orderedPacket, 0, SftpServerWorkerCount),
 		sender:    sender,
@@ -106,6 +108,8 @@ func (s *packetManager) close() {
 	// pause until current packets are processed
 	s.working.Wait()
 	close(s.fini)
+	// wait until the controller has sent the responses that were still queued
+	<-s.done
 }
 
 // Passed a worker function, returns a channel for incoming packets.
@@ -150,6 +154,7 @@ func (s *packetManager) workerChan(runWorker func(chan orderedRequest),
 
 // process packets
 func (s *packetManager) controller() {
+	defer close(s.done)
 	for {
 		select {
 		case pkt := <-s.requests:
@@ -161,9 +166,29 @@ func (s *packetManager) controller() {
 			s.outgoing = append(s.outgoing, pkt)
 			s.outgoing.Sort()
 		case <-s.fini:
+			s.flush()
 			return
 		}
 		s.maybeSendPackets()
+	}
+}
+
+// flush sends what is still queued when the manager is shut down.
+// close() has waited for all workers, so everything registered is already in
+// the channel buffers and a non-blocking drain sees all of it.
+func (s *packetManager) flush() {
+	for {
+		select {
+		case pkt := <-s.requests:
+			s.incoming = append(s.incoming, pkt)
+			s.incoming.Sort()
+		case pkt := <-s.responses:
+			s.outgoing = append(s.outgoing, pkt)
+			s.outgoing.Sort()
+		default:
+			s.maybeSendPackets()
+			return
+		}
 	}
 }
 
